@@ -108,7 +108,12 @@ def judge(case):
 
 def strategy():
     pairs = st.one_of(optim.near_pairs(), optim.near_pairs(), optim.near_pairs(), optim.uniform_pairs())
-    base = optim.spelled_pair_case(pairs)
+    # a quarter of the cases: text in a spelling whose OUTPUT has to be re-read (hsl(), rgb(), rgb%), on pairs that need a fix,
+    # so that the verdict is taken on a freshly formatted hsl()/rgb() string landing near the threshold
+    fixable = optim.near_pairs(delta_lo=-0.3, delta_hi=-0.005, tight=0.1)
+    reread = st.one_of(optim.spelled_pair_case(fixable, translucent_share=0, kinds=["hsl"]), optim.spelled_pair_case(fixable, translucent_share=0, kinds=["hsl"]),
+                       optim.spelled_pair_case(fixable, translucent_share=0, kinds=["rgb", "rgbpct", "rgbws"]))
+    base = st.one_of(optim.spelled_pair_case(pairs), optim.spelled_pair_case(pairs), optim.spelled_pair_case(pairs), reread)
     via = st.sampled_from(["pair", "pair", "pair", "bulk1", "bulk3", "direct"])
     return st.tuples(base, via).map(lambda t: dict(t[0], via=t[1]))
 
